@@ -60,11 +60,12 @@ CHECKS = {
     note="Trusted: pyvc encoding of strings/tuples; callees without contract are opaque and only counted.",
     technique="contract-based deductive verification of guard functions (exceptional postconditions with an effect counter) + bounded guard matrix", engine="pyvc", rtc=True),
  "C02": dict(
-    level=("other", "Deductive: TorchBackend._solve_euler satisfies the same contract (euler_iter) as the NumPy loop, for every step count, cadence "
-            "and state, so the two agree by transitivity. Bounded: torch / jax / fortran vector fields and trajectories against the one reference "
+    level=("other", "Deductive: TorchBackend._solve_euler and JaxBackend._solve_euler/_solve_heun (nested lax.scan over closures, verified "
+            "like loops with inductive invariants over the carry) satisfy the same contracts (euler_iter / heun_iter) as the NumPy loops, for every "
+            "step count, cadence and state, so the backends agree by transitivity. Bounded: torch / jax / fortran vector fields and trajectories against the one reference "
             "semantics, roll on vectors, interpolated inputs, the JAX/Torch loops called directly, float64 after float32 on JAX.", "5 C02"),
-    note="Trusted: as C03 for the loop; spec_rhs/spec_fixed_step; gfortran+f2py+meson, torch, jax as installed. Generated Fortran/XLA/torch kernels are outside any verifier here.",
-    technique="contract-based deductive verification of the Torch solver loop against the shared spec + bounded contract checking of every backend against the spec",
+    note="Trusted: as C03 for the loops; documented semantics of jax.lax.scan (assumed contract); spec_rhs/spec_fixed_step; gfortran+f2py+meson, torch, jax as installed. Generated Fortran/XLA/torch kernels are outside any verifier here.",
+    technique="contract-based deductive verification of the Torch and JAX solver loops against the shared spec + bounded contract checking of every backend against the spec",
     engine="pyvc", rtc=True),
  "C05": dict(
     level=("exploration", "Bounded: seeded random expression trees in four renderings through both evaluation paths (generated code of a one-equation "
@@ -82,14 +83,18 @@ CHECKS = {
             "compiled arguments, initial state and vector field must be those of the model with exactly the addressed nodes overridden.", "5 C07"),
     note="Trusted: mdl_override + spec_rhs.", technique="bounded contract checking of override operations against the overridden spec", engine="rtc", rtc=True),
  "C08": dict(
-    level=("exploration", "Bounded: integrators under seeded non-constant inputs for every input shape and target form, Euler (exact) and adaptive "
-            "(interpolated reference). The deductive part (the fixed-step loops pass the integer step counter to both Heun stages) is discharged under C03.", "5 C08"),
-    note="Trusted: spec with additive extrinsic terms; scipy reference.", technique="bounded contract checking of run(inputs=...) against the spec (step-counter clause proved in C03)", engine="rtc", rtc=True),
+    level=("other", "Deductive core: the fixed-step loops of the NumPy, Torch and JAX backends pass the integer step counter i + t0 to the vector field at "
+            "step i (both Heun stages), for all step counts and cadences. Bounded: integrators under seeded non-constant inputs for every input shape "
+            "and target form, Euler (exact) and adaptive (interpolated reference); the input wiring itself is bounded only.", "5 C08"),
+    note="Trusted: as C03/C02 for the loops; spec with additive extrinsic terms; scipy reference.",
+    technique="contract-based deductive verification of the step-counter clause of every fixed-step loop (pyvc) + bounded contract checking of run(inputs=...) against the spec", engine="pyvc", rtc=True),
  "C10": dict(
-    level=("exploration", "Bounded: compiled functions of delayed models called with a hand-made history (component x of hist(t - tau), t in time "
-            "units for adaptive and fixed-step code) and run() against an RK4 method-of-steps reference incl. coarse sampling. DDEHistory (C19) and "
-            "the history feed of the loops (C03) are proved.", "5 C10"),
-    note="Trusted: spec_rhs with hist; method-of-steps reference.", technique="bounded contract checking against spec with user-supplied history (history buffer and feed proved in C19/C03)", engine="rtc", rtc=True),
+    level=("other", "Deductive core: DDEHistory (initial state before the start, linear interpolant of the recorded trajectory afterwards) and the history "
+            "feed of the fixed-step loops ((i+1)*dt, y_{i+1}) after every step). Bounded: compiled functions of delayed models called with a hand-made "
+            "history (component x of hist(t - tau), t in time units for adaptive and fixed-step code) and run() against an RK4 method-of-steps "
+            "reference incl. coarse sampling.", "5 C10"),
+    note="Trusted: as C19/C03; spec_rhs with hist; method-of-steps reference. The generated hist(...) lines are bounded only.",
+    technique="contract-based deductive verification of the history buffer and the history feed (pyvc) + bounded contract checking against spec with user-supplied history", engine="pyvc", rtc=True),
  "C12": dict(
     level=("other", "Deductive (small core): get_jacobian_func's state-layout loop satisfies the same uniquely determining contract as to_func's (same state ordering). Bounded: J(t,y) of get_jacobian_func against central differences of the get_run_func field in the same ordering, dense and "
             "sparse, history matrices via a perturbed hand-made history, auto-07p DFDU/DFDP at text level.", "5 C12"),
